@@ -17,6 +17,7 @@ import (
 	"os"
 	"os/exec"
 	"path/filepath"
+	"slices"
 	"sort"
 	"strings"
 	"syscall"
@@ -563,6 +564,8 @@ type c04Case struct {
 	// HTTPTimeout: "" = not given (the default, -1: none); otherwise the value of --http-timeout. 0 also means "no
 	// timeout" (every consumer of the setting treats values <= 0 alike); 60 is far above anything a case needs.
 	HTTPTimeout string `json:"http_timeout,omitempty"`
+	// Seencheck: run with the local seen-store on (the default of the command line) instead of --disable-seencheck
+	Seencheck bool `json:"seencheck,omitempty"`
 }
 
 var c04Points = []string{"lq.get.committed", "lq.consumer.beforeInsert", "archiver.beforeDo", "archiver.afterFeedback", "postprocessor.forward",
@@ -582,6 +585,7 @@ func genC04(t *rapid.T) c04Case {
 		c.BadRow = rapid.IntRange(1, min(c.Rows-1, 4)).Draw(t, "badrowat")
 	}
 	c.HTTPTimeout = []string{"", "", "0", "60"}[rapid.IntRange(0, 3).Draw(t, "httptimeout")]
+	c.Seencheck = rapid.Bool().Draw(t, "seencheck")
 	if c.Fault == "cdx-kill" {
 		c.Assets = 2 // two assets are captured concurrently (--max-concurrent-assets 2); the WARC write of one of them is held back
 		if rapid.Bool().Draw(t, "holdon") {
@@ -630,6 +634,9 @@ func lqRows(dbPath string) ([]lqRow, error) {
 
 func c04Args(c c04Case, o *Origin) []string {
 	args := c04BaseArgs(c, o)
+	if c.Seencheck {
+		args = slices.DeleteFunc(args, func(a string) bool { return a == "--disable-seencheck" })
+	}
 	if c.HTTPTimeout != "" {
 		args = append(args, "--http-timeout", c.HTTPTimeout)
 	}
@@ -646,6 +653,11 @@ func c04BaseArgs(c c04Case, o *Origin) []string {
 	return []string{"get", "url", o.URL("/boot"), "--job", "j1", "--workers", fmt.Sprint(c.Workers), "--max-concurrent-assets", "2",
 		"--max-retry", "0", "--min-space-required", "0.001", "--log-level", "debug", "--no-log-file", "--disable-rate-limit", "--disable-seencheck"}
 }
+
+// c04KFSeen: with the local seen-store on (the default), a URL is recorded as seen when it is preprocessed - before it is
+// captured. After a kill or a stop the restarted job finds every URL that had been handed out "already seen", skips it and
+// reports it finished: it is never crawled again.
+const c04KFSeen = "C04-seen-before-captured"
 
 type c04Result struct {
 	Viol       string   `json:"violation,omitempty"`
@@ -921,9 +933,25 @@ func runC04(t veriflib.TB, c c04Case) (res c04Result) {
 			later[r.Path] = true
 		}
 	}
+	run1 := map[string]bool{}
+	for _, r := range log {
+		if r.Run < 2 {
+			run1[r.Path] = true
+		}
+	}
 	for id, p := range queue {
 		if _, unfinished := left[id]; unfinished && !later[p] {
-			res.Viol = fmt.Sprintf("%s (%s) was in the queue with status %s when run 1 ended and had not been reported finished, but it was never crawled again after the restart", id, p, left[id])
+			note := ""
+			if c.Seencheck && (run1[p] || left[id] == "CLAIMED") {
+				// the seed had been handed out in run 1: with the local seen-store on it was recorded as seen when it was
+				// preprocessed, before anything of it was captured
+				if veriflib.FindingOpen(c04KFSeen) {
+					veriflib.Excluded("C04/proc", "URL handed out before the fault with the local seen-store on (open finding "+c04KFSeen+")")
+					continue
+				}
+				note = " - the local seen-store is on: the URL was recorded as seen in run 1 before it was captured, run 2 skips it as already seen"
+			}
+			res.Viol = fmt.Sprintf("%s (%s) was in the queue with status %s when run 1 ended and had not been reported finished, but it was never crawled again after the restart%s", id, p, left[id], note)
 			return res
 		}
 	}
@@ -993,4 +1021,15 @@ func TestVerif_C04_Proc(t *testing.T) {
 		c := genC04(rt)
 		propC04(rt, c)
 	})
+}
+
+
+// Strict reproduction of the open finding C04-seen-before-captured: default seen-store, a kill while the second request
+// is being served.
+func TestVerifKF_C04_SeenBeforeCaptured(t *testing.T) {
+	defer veriflib.Flush()
+	if veriflib.Replaying() {
+		t.Skip()
+	}
+	propC04(t, c04Case{Rows: 6, Workers: 1, Assets: 1, Fault: "kill-arrival", N: 2, Seencheck: true})
 }
